@@ -136,6 +136,12 @@ class Registry:
         for pycls, names in glob.get('HEAP_CLASS_ATTRS', {}).items():
             for n in names:
                 self.heap_class_attrs.add((pycls, n))
+        if not hasattr(self, 'sequence_view'):
+            self.sequence_view = []
+        for pycls, attr in glob.get('SEQUENCE_VIEW', {}).items():
+            if (pycls, attr) not in self.sequence_view:
+                self.sequence_view.append((pycls, attr))
+                V.cid_of(pycls)
         for pycls, specname in glob.get('TRUTH', {}).items():
             sf = self.spec_names[specname]
             self.bool_hooks.append((pycls, (lambda sf: lambda it, v: it.sub(pure=True).truth(it.sub(pure=True).call_spec(sf, [v], {})))(sf)))
